@@ -217,7 +217,7 @@ class C09(Prop):
         "mem_bytes", "floatstring_fits", "samplers_replay", "mt_constants_published", "model_constants_regenerated", "temper_linear",
         "seed0_create_replays", "seed0_init_replays", "rand64_init_replays", "dump_in_bounds", "dump_in_bounds_reinit", "dump_prefix_out_of_bounds",
         "rand64_deal_spec_abstract", "rand64_deal_spec_binary64", "vitter_a_terminates", "rand64_deal_small_terminates", "rand64_deal_prefix_out_of_range", "rand64_deal_prefix_defect_carrier",
-        "mt_top_bit_clear_within", "roll_accepts_top_clear", "roll_terminates_mt19937", "roll_terminates_on_stream", "roll_terminates_fast", "roll64_terminates", "roll_is_first_accepted_word", "roll64_is_first_accepted_word", "uniformPositive_terminates", "uniformPositive_is_first_nonzero_word", "mem_floatstring_total", "gamma_integer_dirichlet_total")] + ["EaselModel.MTP.fill_correct", "EaselModel.MTP.stream_eq_spec"]
+        "mt_top_bit_clear_within", "roll_accepts_top_clear", "roll_terminates_mt19937", "roll_terminates_on_stream", "on_stream_closed", "roll_terminates_fast", "roll64_terminates", "roll_is_first_accepted_word", "roll64_is_first_accepted_word", "uniformPositive_terminates", "uniformPositive_is_first_nonzero_word", "mem_floatstring_total", "gamma_integer_dirichlet_total")] + ["EaselModel.MTP.fill_correct", "EaselModel.MTP.stream_eq_spec"]
     claimed = True
     technique = "Lean 4 proof (generic in-place-refill = recurrence theorem, stream invariant by induction, roll/deal arithmetic, GF(2) linear-recurrence bound on runs of the top output bit for loop termination) + exact differential correspondence of the executable model with the ASan/UBSan-built C generators"
     level_text = ("Theorems for all seeds and all stream positions: the model's MT19937 / MT19937-64 / LCG output equals the reference recurrence across any number of refills; "
